@@ -44,6 +44,7 @@ func runC09(c *Ctx) {
 	c09R17(c)
 	c09R18(c)
 	c09R19(c)
+	c09R20(c)
 }
 
 // c09R10: only the source task's read may end a pass quietly.
@@ -1303,4 +1304,83 @@ func c09R19(c *Ctx) {
 		}
 		c.R.Check(n >= 1, r, "v2 doTaskAttempt: graceful return", c.Pos(fn.Pos()), "found", "no `return ctx.Err()` found in doTaskAttempt", true)
 	}
+}
+
+// c09R20: F77. The WASM module handles commands strictly one after the other and delivers each response through the
+// unbuffered commandResponses channel. When executeCommand gives up on ctx.Done() nobody receives the late response:
+// the module blocks in command_response for ever and never fetches another command — the next command, at the latest
+// Teardown (the arch-v2 engine tears down with context.Background()), hangs. The abandoned response has to be drained.
+func c09R20(c *Ctx) {
+	r := c.R.Rule("R20", "K4 an abandoned command does not wedge the module: behind the ctx.Done() arm of wasmProcessor.executeCommand's wait, a receiver for the late response is started (a goroutine / call that receives from commandResponses) before the function returns", 1)
+	const pStandalone = "pkg/plugin/processor/standalone"
+	fn := c.SSA(r, pStandalone, "(*wasmProcessor).executeCommand")
+	chF := c.Field(r, pStandalone, "wasmProcessor", "commandResponses")
+	if fn == nil || chF == nil {
+		return
+	}
+	receives := func(f *ssa.Function) bool {
+		for _, b := range f.Blocks {
+			for _, in := range b.Instrs {
+				switch x := in.(type) {
+				case *ssa.UnOp:
+					if x.Op == token.ARROW && kit.IsFieldLoad(x.X, chF) {
+						return true
+					}
+				case *ssa.Select:
+					for _, st := range x.States {
+						if st.Dir == types.RecvOnly && kit.IsFieldLoad(st.Chan, chF) {
+							return true
+						}
+					}
+				}
+			}
+		}
+		return false
+	}
+	n := 0
+	for _, sel := range kit.Selects(fn) {
+		for i, st := range sel.States {
+			cl, ok := st.Chan.(*ssa.Call)
+			if st.Dir != types.RecvOnly || !ok || !cl.Call.IsInvoke() || cl.Call.Method.Name() != "Done" {
+				continue
+			}
+			// only the wait for the response (a select that also receives from commandResponses)
+			waits := false
+			for _, s2 := range sel.States {
+				if s2.Dir == types.RecvOnly && kit.IsFieldLoad(s2.Chan, chF) {
+					waits = true
+				}
+			}
+			if !waits {
+				continue
+			}
+			n++
+			g := kit.NewGates()
+			for _, b := range fn.Blocks {
+				for _, in := range b.Instrs {
+					switch x := in.(type) {
+					case *ssa.Go:
+						if f := x.Call.StaticCallee(); f != nil && receives(f) {
+							g.AddInstr(x, "go drain")
+						}
+						if mc, ok := x.Call.Value.(*ssa.MakeClosure); ok && receives(mc.Fn.(*ssa.Function)) {
+							g.AddInstr(x, "go drain")
+						}
+					case *ssa.Call:
+						if f := x.Call.StaticCallee(); f != nil && f.Pkg == fn.Pkg && receives(f) {
+							g.AddInstr(x, "drain")
+						}
+					}
+				}
+			}
+			ok2 := !g.Empty()
+			for _, e := range kit.SelectArmEdges(sel, i) {
+				if pass, _ := kit.AllExitsFromEdge(e, false, kit.ExitSpec{Gates: g}); !pass {
+					ok2 = false
+				}
+			}
+			c.R.Check(ok2, r, "executeCommand: the response to an abandoned command is drained", c.Pos(sel.Pos()), "drain started on the ctx.Done() arm", "executeCommand returns on ctx.Done() while the module still owes the response and nobody will receive it: the module blocks for ever in command_response and never fetches another command, so the next command — at the latest Teardown, which the arch-v2 engine calls with context.Background() — never returns and the pipeline stays 'running' after a force stop", true)
+		}
+	}
+	c.R.Check(n >= 1, r, "executeCommand: the wait for the response", c.Pos(fn.Pos()), "found", "the select waiting for the command response was not found", true)
 }
